@@ -4,4 +4,6 @@
 void verif_factory_hook(void);
 #define BOARD_ESP_FACTORY_DEFAULTS verif_factory_hook();
 #define RETREIVE_CHANNEL_CONFIG 0xff
+/* observation of every recognised input state change (supla_esp_board_input_state_change in sdk/fwglue.c) */
+#define BOARD_INPUT_STATE_CHANGE_NOTIF
 #endif
